@@ -919,3 +919,262 @@ Section Instance.
     fst (run_calls E key s (before ++ [c])) = map (fresh_call E key) before ++ [fresh_call E key c].
   Proof. rewrite run_calls_stateless, map_app. reflexivity. Qed.
 End Instance.
+
+(** * NWK histories with management operations *)
+Lemma fresh_hist_k_lower T evs : fresh_hist_k T evs ->
+  forall K a c, In (K, a, c) evs -> forall c0, T K a = Some c0 -> c0 <= c.
+Proof.
+  revert T. induction evs as [|[[K1 a1] c1] r IH]; intros T; cbn [fresh_hist_k In]; [tauto|].
+  intros [H1 H2] K a c [Heq|Hin] c0 HT.
+  - injection Heq as -> -> ->. apply H1. exact HT.
+  - specialize (IH _ H2 K a c Hin). unfold bump_k in IH.
+    destruct (bytes_eqb K K1 && bytes_eqb a a1) eqn:Eb.
+    + apply andb_true_iff in Eb. destruct Eb as [Ek Ea]. apply bytes_eqb_eq in Ek, Ea. subst.
+      specialize (H1 _ HT). specialize (IH _ eq_refl). lia.
+    + apply IH. exact HT.
+Qed.
+
+Lemma fresh_hist_k_strict T evs : fresh_hist_k T evs ->
+  forall i j K a c c', (i < j)%nat ->
+    nth_error evs i = Some (K, a, c) -> nth_error evs j = Some (K, a, c') -> c < c'.
+Proof.
+  revert T. induction evs as [|[[K1 a1] c1] r IH]; intros T Hf i j K a c c' Hij Hi Hj.
+  - destruct i; discriminate.
+  - cbn [fresh_hist_k] in Hf. destruct Hf as [H1 H2].
+    destruct j as [|j]; [lia|]. cbn [nth_error] in Hj.
+    destruct i as [|i]; cbn [nth_error] in Hi.
+    + injection Hi as -> -> ->.
+      apply nth_error_In in Hj.
+      pose proof (fresh_hist_k_lower _ _ H2 K a c' Hj (c + 1)) as Hl.
+      unfold bump_k in Hl. rewrite !bytes_eqb_refl in Hl. specialize (Hl eq_refl). lia.
+    + eapply (IH _ H2 i j); try eassumption. lia.
+Qed.
+
+Definition keys_nodup (st : nwk) : Prop := NoDup (map m_key (n_mats st)).
+
+Lemma find_key_in K ms m : find_key K ms = Some m -> In m ms /\ m_key m = K.
+Proof.
+  induction ms as [|x r IH]; cbn [find_key]; [discriminate|].
+  destruct (bytes_eqb (m_key x) K) eqn:Eb.
+  - intros H. injection H as <-. apply bytes_eqb_eq in Eb. split; [left; reflexivity|exact Eb].
+  - intros H. destruct (IH H). split; [right; assumption|assumption].
+Qed.
+
+(** updating the counter table of the selected material, seen through the keys *)
+Lemma find_key_store K' k a v ms m :
+  select k ms = Some m -> NoDup (map m_key ms) ->
+  find_key K' (store k a v ms) =
+  if bytes_eqb (m_key m) K' then Some (mkMat (m_seq m) (m_key m) (update a v (m_in m))) else find_key K' ms.
+Proof.
+  induction ms as [|x r IH]; cbn [select store find_key map]; [discriminate|].
+  intros Hs Hnd. inversion Hnd as [|? ? Hnotin Hnd']; subst.
+  destruct (N.eqb_spec (m_seq x) k) as [He|He].
+  - injection Hs as <-. cbn [find_key m_key]. destruct (bytes_eqb (m_key x) K'); reflexivity.
+  - cbn [find_key]. destruct (bytes_eqb (m_key x) K') eqn:Ex.
+    + apply bytes_eqb_eq in Ex. subst K'.
+      destruct (bytes_eqb (m_key m) (m_key x)) eqn:Em; [|reflexivity].
+      apply bytes_eqb_eq in Em. apply select_seq in Hs. destruct Hs as [_ Hin].
+      exfalso. apply Hnotin. rewrite <- Em. apply in_map. exact Hin.
+    + apply IH; assumption.
+Qed.
+
+Lemma store_keys_list k a v ms : map m_key (store k a v ms) = map m_key ms.
+Proof.
+  induction ms as [|x r IH]; cbn [store map]; [reflexivity|].
+  destruct (m_seq x =? k); cbn [map m_key]; [reflexivity|rewrite IH; reflexivity].
+Qed.
+
+Lemma find_key_app_new K ms m2 : m_key m2 <> K -> find_key K (ms ++ [m2]) = find_key K ms.
+Proof.
+  intros Hne. induction ms as [|x r IH]; cbn [app find_key].
+  - destruct (bytes_eqb (m_key m2) K) eqn:Eb; [|reflexivity]. apply bytes_eqb_eq in Eb. contradiction.
+  - destruct (bytes_eqb (m_key x) K); [reflexivity|exact IH].
+Qed.
+
+Lemma has_key_find K ms : has_key K ms = false -> find_key K ms = None.
+Proof.
+  induction ms as [|x r IH]; cbn [has_key find_key]; [reflexivity|].
+  destruct (bytes_eqb (m_key x) K); cbn [orb]; [discriminate|exact IH].
+Qed.
+
+Lemma has_key_in K ms : has_key K ms = false -> ~ In K (map m_key ms).
+Proof.
+  induction ms as [|x r IH]; cbn [has_key map In]; [tauto|].
+  destruct (bytes_eqb (m_key x) K) eqn:Eb; cbn [orb]; [discriminate|].
+  intros H [Heq|Hin]; [|exact (IH H Hin)]. subst K. rewrite bytes_eqb_refl in Eb. discriminate.
+Qed.
+
+Lemma find_key_remove K K2 ms : K <> K2 -> find_key K (remove_key K2 ms) = find_key K ms.
+Proof.
+  intros Hne. induction ms as [|x r IH]; cbn [remove_key find_key]; [reflexivity|].
+  destruct (bytes_eqb (m_key x) K2) eqn:E2.
+  - apply bytes_eqb_eq in E2. destruct (bytes_eqb (m_key x) K) eqn:E1; [|reflexivity].
+    apply bytes_eqb_eq in E1. congruence.
+  - cbn [find_key]. destruct (bytes_eqb (m_key x) K); [reflexivity|exact IH].
+Qed.
+
+Lemma remove_key_nodup K ms : NoDup (map m_key ms) -> NoDup (map m_key (remove_key K ms)).
+Proof.
+  induction ms as [|x r IH]; cbn [remove_key map]; [auto|].
+  intros Hnd. inversion Hnd as [|? ? Hnotin Hnd']; subst.
+  destruct (bytes_eqb (m_key x) K); [exact Hnd'|].
+  cbn [map]. constructor; [|apply IH; exact Hnd'].
+  intros Hin. apply Hnotin. clear -Hin. induction r as [|y r IH]; cbn [remove_key map In] in *; [exact Hin|].
+  destruct (bytes_eqb (m_key y) K); [right; exact Hin|].
+  cbn [map In] in Hin. destruct Hin; [left; assumption|right; apply IH; assumption].
+Qed.
+
+Lemma nodup_snoc {A} (l : list A) k : NoDup l -> ~ In k l -> NoDup (l ++ [k]).
+Proof.
+  induction l as [|x r IH]; cbn [app]; intros Hnd Hni.
+  - constructor; [intros []|constructor].
+  - inversion Hnd as [|? ? Hx Hr]; subst. constructor.
+    + intros Hin. apply in_app_or in Hin. destruct Hin as [Hin|[Heq|[]]]; [exact (Hx Hin)|].
+      apply Hni. left. symmetry. exact Heq.
+    + apply IH; [exact Hr|]. intros Hin. apply Hni. right. exact Hin.
+Qed.
+
+Section NwkMgmt.
+  Variable E : bytes -> bytes -> bytes.
+
+  (** every management operation other than the removal of [K] leaves the counter table of
+      (K, sender) as it is *)
+  Lemma mgmt_preserves_table hs m K a :
+    (forall K', m = RemoveKey K' -> K' <> K) ->
+    stored_k (fst (apply_mgmt hs m)) K a = stored_k (fst hs) K a.
+  Proof.
+    destruct hs as [st act]. intros Hm. destruct m as [key seq|seq|key]; cbn [apply_mgmt fst].
+    - destruct (has_key key (n_mats st)) eqn:Eh; [reflexivity|].
+      unfold stored_k. cbn [with_mats n_mats fst].
+      destruct (bytes_eqb key K) eqn:Ek.
+      + apply bytes_eqb_eq in Ek. subst key. rewrite (has_key_find _ _ Eh).
+        assert (Hf : find_key K (n_mats st ++ [mkMat seq K []]) = Some (mkMat seq K [])).
+        { clear Hm. induction (n_mats st) as [|x r IH]; cbn [app find_key has_key] in *.
+          - cbn [m_key]. rewrite bytes_eqb_refl. reflexivity.
+          - destruct (bytes_eqb (m_key x) K); cbn [orb] in Eh; [discriminate|]. apply IH. exact Eh. }
+        rewrite Hf. reflexivity.
+      + rewrite find_key_app_new; [reflexivity|].
+        cbn [m_key]. intros ->. rewrite bytes_eqb_refl in Ek. discriminate.
+    - reflexivity.
+    - unfold stored_k. cbn [with_mats n_mats fst]. rewrite find_key_remove; [reflexivity|].
+      intros Heq. subst key. exact (Hm K eq_refl eq_refl).
+  Qed.
+
+  Lemma mgmt_preserves_nodup hs m : keys_nodup (fst hs) -> keys_nodup (fst (apply_mgmt hs m)).
+  Proof.
+    destruct hs as [st act]. unfold keys_nodup. intros Hnd. destruct m as [key seq|seq|key]; cbn [apply_mgmt fst].
+    - destruct (has_key key (n_mats st)) eqn:Eh; [exact Hnd|].
+      cbn [with_mats n_mats fst]. rewrite map_app. cbn [map m_key].
+      apply nodup_snoc; [exact Hnd|apply has_key_in; exact Eh].
+    - exact Hnd.
+    - cbn [with_mats n_mats fst]. apply remove_key_nodup. exact Hnd.
+  Qed.
+
+  Lemma mgmt_flags hs m : n_all_fresh (fst (apply_mgmt hs m)) = n_all_fresh (fst hs).
+  Proof.
+    destruct hs as [st act]. destruct m as [key seq|seq|key]; cbn [apply_mgmt fst]; try reflexivity.
+    destruct (has_key key (n_mats st)); reflexivity.
+  Qed.
+
+  (** a PDU step seen through the keys *)
+  Lemma nwk_step_stored_k st p o st1 : nwk_step E st p = (o, st1) -> keys_nodup st ->
+    keys_nodup st1 /\
+    match p, o with
+    | Secured f, UpSecured _ _ =>
+        exists K, sel_key st f = Some K
+        /\ (n_all_fresh st = true -> forall c0, stored_k st K (sender_of f) = Some c0 -> c0 <= f_fc f)
+        /\ forall K' a', stored_k st1 K' a' = bump_k (stored_k st) K (sender_of f) (f_fc f) K' a'
+    | _, _ => st1 = st
+    end.
+  Proof.
+    intros Hs Hnd. destruct p as [f|ft os raw]; cbn [nwk_step] in Hs.
+    - destruct (nwk_decrypt E st f) as [f' st'| |cls] eqn:Ed; injection Hs as <- <-; try (split; [exact Hnd|reflexivity]).
+      apply nwk_decrypt_ok in Ed. destruct Ed as (k & m & Hk & Hsel & Hst & _ & ->).
+      split.
+      { unfold keys_nodup. cbn [with_mats n_mats]. rewrite store_keys_list. exact Hnd. }
+      exists (m_key m). unfold sel_key. rewrite Hk, Hsel. split; [reflexivity|].
+      destruct (select_seq _ _ _ Hsel) as [_ Hin].
+      assert (Hfind : find_key (m_key m) (n_mats st) = Some m).
+      { clear -Hin Hnd. unfold keys_nodup in Hnd. induction (n_mats st) as [|x r IH]; [destruct Hin|].
+        cbn [find_key]. cbn [map] in Hnd. inversion Hnd as [|? ? Hnotin Hnd']; subst.
+        destruct Hin as [->|Hin]; [rewrite bytes_eqb_refl; reflexivity|].
+        destruct (bytes_eqb (m_key x) (m_key m)) eqn:Eb; [|apply IH; assumption].
+        apply bytes_eqb_eq in Eb. exfalso. apply Hnotin. rewrite Eb. apply in_map. exact Hin. }
+      split.
+      + intros Hfresh c0 Hc0. unfold stored_k in Hc0. rewrite Hfind in Hc0.
+        unfold stale in Hst. rewrite Hc0, Hfresh, andb_true_r in Hst. apply N.ltb_ge in Hst. exact Hst.
+      + intros K' a'. unfold stored_k, bump_k. cbn [with_mats n_mats].
+        rewrite (find_key_store K' k _ _ _ m Hsel Hnd).
+        destruct (bytes_eqb (m_key m) K') eqn:Eb.
+        * apply bytes_eqb_eq in Eb. subst K'. rewrite bytes_eqb_refl. cbn [andb m_in].
+          rewrite lookup_update, Hfind. reflexivity.
+        * assert (Eb' : bytes_eqb K' (m_key m) = false).
+          { destruct (bytes_eqb K' (m_key m)) eqn:E2; [|reflexivity]. apply bytes_eqb_eq in E2. subst K'.
+            rewrite bytes_eqb_refl in Eb. discriminate. }
+          rewrite Eb'. reflexivity.
+    - destruct (negb os && n_secure_all st); injection Hs as <- <-; split; try exact Hnd; reflexivity.
+  Qed.
+
+  Lemma haccepted_fresh K items : forall hs T, n_all_fresh (fst hs) = true -> keys_nodup (fst hs) ->
+    never_removes K items -> (forall a, T K a = stored_k (fst hs) K a) ->
+    fresh_hist_k T (filter (fun ev => bytes_eqb (fst (fst ev)) K) (haccepted E hs items)).
+  Proof.
+    induction items as [|it r IH]; intros hs T Hf Hnd Hnr HT; cbn [haccepted filter]; [exact I|].
+    inversion Hnr as [|? ? Hit Hnr']; subst.
+    destruct it as [p|m]; cbn [hstep].
+    - destruct (nwk_step E (fst hs) p) as [o st1] eqn:Es.
+      destruct (nwk_step_stored_k _ _ _ _ Es Hnd) as [Hnd1 Hst].
+      pose proof (nwk_step_flags E _ _ _ _ Es) as (_ & Hf1 & _ & _). rewrite Hf in Hf1.
+      destruct p as [f|ft os raw].
+      + destruct o as [svc f'|svc raw| |cls];
+          try (subst st1; apply IH; cbn [fst]; assumption).
+        destruct Hst as (K1 & Hsel & Hlow & Hupd). rewrite Hsel. cbn [filter fst].
+        destruct (bytes_eqb K1 K) eqn:Ek.
+        * apply bytes_eqb_eq in Ek. subst K1. cbn [fresh_hist_k]. split.
+          -- intros c0. rewrite HT. apply Hlow. exact Hf.
+          -- apply IH; cbn [fst]; try assumption.
+             intros a. unfold bump_k. rewrite Hupd. unfold bump_k. rewrite HT. reflexivity.
+        * apply IH; cbn [fst]; try assumption.
+          intros a. rewrite HT, Hupd. unfold bump_k.
+          assert (Ek' : bytes_eqb K K1 = false).
+          { destruct (bytes_eqb K K1) eqn:E2; [|reflexivity]. apply bytes_eqb_eq in E2. subst K1.
+            rewrite bytes_eqb_refl in Ek. discriminate. }
+          rewrite Ek'. reflexivity.
+      + assert (st1 = fst hs) as -> by (destruct o; exact Hst). apply IH; cbn [fst]; assumption.
+    - apply IH.
+      + rewrite mgmt_flags. exact Hf.
+      + apply mgmt_preserves_nodup. exact Hnd.
+      + exact Hnr'.
+      + intros a. rewrite HT. symmetry. apply mgmt_preserves_table.
+        intros K' ->. exact Hit.
+  Qed.
+
+  (** freshness over histories of PDUs AND management operations: for a key that the history
+      never removes, the accepted counters of (key, sender) strictly increase *)
+  Lemma nwk_strictly_fresh_mgmt hs items K :
+    n_all_fresh (fst hs) = true -> keys_nodup (fst hs) -> never_removes K items ->
+    forall i j a c c', (i < j)%nat ->
+    let evs := filter (fun ev => bytes_eqb (fst (fst ev)) K) (haccepted E hs items) in
+    nth_error evs i = Some (K, a, c) -> nth_error evs j = Some (K, a, c') -> c < c'.
+  Proof.
+    intros Hf Hnd Hnr i j a c c' Hij evs Hi Hj.
+    eapply (fresh_hist_k_strict (fun K' a' => stored_k (fst hs) K' a')); try eassumption.
+    apply haccepted_fresh; try assumption. reflexivity.
+  Qed.
+
+  (** authentication over such histories: what goes up was accepted under a key provisioned at
+      that moment *)
+  Lemma htrace_authentic items : forall hs,
+    Forall (fun x => match x with
+                     | (HPdu p, pre, Some o) => authentic_up E (fst pre) p o
+                     | _ => True
+                     end) (htrace E hs items).
+  Proof.
+    induction items as [|it r IH]; intros hs; cbn [htrace]; [constructor|].
+    destruct (hstep E hs it) as [o hs1] eqn:Es. constructor; [|apply IH].
+    destruct it as [p|m]; cbn [hstep] in Es.
+    - destruct (nwk_step E (fst hs) p) as [o' st1] eqn:En. injection Es as <- <-.
+      eapply nwk_step_authentic. exact En.
+    - injection Es as <- <-. exact I.
+  Qed.
+End NwkMgmt.
